@@ -547,12 +547,19 @@ def run(s):
             mods = {}
             if use_table:
                 names = ["c11", "c12", "c44"] if system == "cubic" else ["c11", "c22", "c33", "c12", "c13", "c23", "c44", "c55", "c66"]
-                Vt = V.copy() if rnd.random() < 0.5 else numpy.array(rnd.sample(list(V), nv))
+                # the table has ITS OWN volumes: the input volumes, the same in another order, or a different number of other volumes (three more rows)
+                tvar = (t // 2) % 3
+                Vt = V.copy() if tvar == 0 else numpy.array(rnd.sample(list(V), nv)) if tvar == 1 else numpy.linspace(V.max() * 1.02, V.min() * 0.97, nv + 3)
+                raw = {}
                 for k, nm in enumerate(names):
                     b0 = (300.0 if nm[1] == nm[2] and nm[1] in "123" else 90.0 if nm[1] in "123" and nm[2] in "123" else 70.0) * (1 + 0.05 * k)
-                    b1, b2 = rnd.uniform(200, 900), rnd.uniform(-500, 500)
-                    mods[nm] = (lambda v, b0=b0, b1=b1, b2=b2: b0 + b1 * strain(Vref, v) + b2 * strain(Vref, v) ** 2)
-                table = (names, Vt, [[mods[nm](v) for nm in names] for v in Vt])
+                    b1, b2, b3 = rnd.uniform(200, 900), rnd.uniform(-500, 500), rnd.uniform(-4000, 4000)
+                    # NOT quadratic in strain (cubic term): the reported modulus is the second-order least-squares fit of ALL tabulated rows, evaluated at the row's volume
+                    raw[nm] = (lambda v, b0=b0, b1=b1, b2=b2, b3=b3: b0 + b1 * strain(Vref, v) + b2 * strain(Vref, v) ** 2 + b3 * strain(Vref, v) ** 3)
+                    vals_t = numpy.array([float("%.10f" % raw[nm](v)) for v in Vt])
+                    coef = numpy.polyfit(strain(Vt[0], Vt), vals_t, 2)
+                    mods[nm] = (lambda v, coef=coef, v0=Vt[0]: numpy.polyval(coef, strain(v0, v)))
+                table = (names, Vt, [[raw[nm](v) for nm in names] for v in Vt])
             write_inputs(tmp, V, [Efun(v) for v in V], table, mass_tab)
             mode = ["none", "volume", "pressure"][t % 3]
             ntv = rnd.choice([11, 51, 201, 401]) if mode != "none" else rnd.choice([101, 201, 401])
@@ -563,7 +570,7 @@ def run(s):
                 lo, hi = max(0.0, float(pgrid.min()) + 1), float(pgrid.max()) - 1
                 ntv = rnd.choice([11, 21, 41])
                 pmin = round(lo + 0.1 * (hi - lo), 2)
-                dp = round(0.7 * (hi - lo) / (ntv - 1), 3)
+                dp = max(round(0.7 * (hi - lo) / (ntv - 1), 3), 0.001)
                 if sample:
                     # the sampling step is a RATIO of two printed decimals: take, in turn, steps whose floating-point quotient falls just below / just above / on
                     # the integer (0.6 / 0.2 = 2.9999999999999996), all of which request every sample-th row
